@@ -40,8 +40,8 @@ PARTIAL = ['clause "a well-formed document to which a single unmatched delimiter
            'other math mode, $ directly before $, environments with arguments), insertion points inside an item '
            '(between the tokens of a macro call, inside whitespace). Documents of the EXTENDED grammar of C02 '
            '(Doc/DocGrammar2.v: environments with arguments and math-mode bodies, specials, optional / star / '
-           'single-token / verbatim arguments, verbatim macros and environments) are covered for stray CLOSING tokens '
-           'only: C05_fault_closing2_partial / C05_fault_closing2_doc_partial (a }, \\), \\] or \\end{x} at an item '
+           'single-token / verbatim arguments, verbatim macros and environments) are covered for stray CLOSING tokens: '
+           'C05_fault_closing2_partial / C05_fault_closing2_doc_partial (a }, \\), \\] or \\end{x} at an item '
            'boundary of the top-level body, resp. appended to a whole document), C05_fault_closing2_nested_partial (at an '
            'item boundary of a body reached through groups, formulas of all four kinds and environment bodies - environments '
            'with arguments included -, unless it is the closing delimiter of the innermost construct), '
@@ -50,9 +50,30 @@ PARTIAL = ['clause "a well-formed document to which a single unmatched delimiter
            'hypothesis: the left context and the items in front of the token are well formed IN FRONT OF everything that is '
            'written after them (the side conditions of the extended grammar are evaluated against the follow string; the rest '
            'of the input is otherwise arbitrary; C05_fault_closing2_doc_ws_partial: ok_doc2 of the document suffices when it ends with '
-           'whitespace and no specials sequence contains a backslash / closing brace). Opening delimiters in extended documents, paths through macro arguments / '
-           'specials arguments / delimited arguments, and every other fault position of extended documents: correspondence + '
-           'oracle only. Proved in Coq for every string: '
+           'whitespace and no specials sequence contains a backslash / closing brace); and for unmatched OPENING delimiters '
+           '({, $, \\(, \\[, $$, and \\begin{name} of ANY environment with a standard signature WITH its arguments, math-mode '
+           'bodies included) inserted at an item boundary: C05_fault_opening2_partial (of the top-level body: "closing '
+           'delimiter not found" (6) located right after the delimiter - for an environment after its arguments -, raised at '
+           'the end of input), C05_fault_opening2_nested_partial (of the body of a group, \\( \\) / \\[ \\] formula or environment '
+           'reached through groups, formulas of all four kinds and environment bodies: the new construct runs into the '
+           'closing delimiter of the enclosing construct and, when that is not also its own - not { in a group, not '
+           '\\begin{name} in the body of \\begin{name} -, rejects it: error of that token\'s raise site located AT it, '
+           'whatever follows), C05_fault_opening2_any_suffix_partial (the same in front of any stray closing token, any left '
+           'context, any suffix), C05_fault_unclosed2_partial (the input ends inside nested unclosed constructs: error 6 '
+           'located right after the opening of the innermost one; covers { inserted in a group standing at top level, whose '
+           'outer group is left unclosed; { inserted in a group nested elsewhere is an instance of the nested theorem by '
+           're-reading the faulted text), C05_fault_closing2_macro_arg_partial / C05_fault_opening2_macro_arg_partial (a stray '
+           '\\), \\] or \\end{x}, resp. an unmatched opening delimiter other than {, at an item boundary of the body of a BRACED '
+           'MANDATORY ARGUMENT of a macro call written in such a body - the argument being the innermost construct: rejected '
+           'where it stands, resp. at the closing brace of the argument); hypotheses on the FAULTED text, against the follow string: the items in front of '
+           'the delimiter well formed in front of everything written after them, a math delimiter outside math mode and $ '
+           'not directly followed by $, the environment resolved by the context with well-formed arguments, the items after '
+           'the delimiter well formed in the state of the NEW construct\'s body. NOT proved for extended documents '
+           '(correspondence + oracle only): an opening delimiter inserted in a $ $ / $$ $$ formula, a math delimiter '
+           'inserted in math mode, paths that CONTINUE below a braced macro argument, specials arguments '
+           '(delimited arguments: closing tokens only), verbatim environments as the inserted '
+           'delimiter, insertion points inside an item, and the derivation of the hypotheses on the faulted text from '
+           'ok_doc2 of the original document. Proved in Coq for every string: '
            'C05_no_other_exception(_run, _any_fuel), C05_result_shape, C05_errors_located(_top), C05_error_line_col',
            'C05_no_other_exception allows OutOfFuel as an outcome of the model: termination is a theorem of C06, not of C05',
            'the lineno/colno annotation of _ParsingContext.__exit__ is not part of the parser model (errors carry only pe_pos): '
